@@ -1,7 +1,146 @@
 import Cherab.Drv.Proto
-open Cherab.Drv
+import Cherab.Model.IonBalance
+import Cherab.Gen.IonBalance
+open Cherab.Drv Cherab.IonBalance
 
-/-- C09 driver: not yet implemented (echo) -/
+/-! C09 driver.  Rates travel as lists `S_0…S_{Z-1}`, `A_1…A_Z`, `C_1…C_Z`; the least-squares solver of the model is
+instantiated with `bdSolve` (reads only the matrix the model built).  The `coef_tcx` selection flags come from the
+generated table unless a command overrides them (`x` variants). -/
+
+def genFlags : Flags := Cherab.Gen.IonBalance.flags
+
+def fnS (l : List Float) : Nat → Float := fun i => l.getD i 0
+/-- `A i`, `C i` are indexed from 1 -/
+def fnA (l : List Float) : Nat → Float := fun i => l.getD (i - 1) 0
+
+def outZ (Z : Nat) (f : Nat → Float) : String := fFs ((List.range (Z + 1)).map f)
+
+/-- parse `S[Z] A[Z] C[Z]` -/
+def rates3 (Z : Nat) (ts : List String) : (Nat → Float) × (Nat → Float) × (Nat → Float) × List String :=
+  let (s, r1) := takeF Z ts
+  let (a, r2) := takeF Z r1
+  let (c, r3) := takeF Z r2
+  (fnS s, fnA a, fnA c, r3)
+
+def takeSpecies : Nat → List String → List (List Float)
+  | 0, _ => []
+  | k + 1, n :: r => let m := pN n; ((r.take m).map pF) :: takeSpecies k (r.drop m)
+  | _, _ => []
+
+def chunks (c : Nat) : Nat → List Float → List (List Float)
+  | 0, _ => []
+  | r + 1, l => l.take c :: chunks c r (l.drop c)
+
+def takeProfile : List String → Option (Profile Float × List String)
+  | "s" :: v :: r => some (.scalar (pF v), r)
+  | "a1" :: n :: r => let k := pN n; some (.arr1 ((r.take k).map pF), r.drop k)
+  | "a2" :: nr :: nc :: r =>
+      let a := pN nr; let b := pN nc
+      some (.arr2 (chunks b a ((r.take (a * b)).map pF)), r.drop (a * b))
+  | "f1" :: a :: b :: r => some (.fn1 (fun x => pF a + pF b * x), r)
+  | "f2" :: a :: b :: c :: r => some (.fn2 (fun x y => pF a + pF b * x + pF c * y), r)
+  | _ => none
+
+def takeFree : List String → Option (FreeVar Float × List String)
+  | "fv0" :: r => some (.none, r)
+  | "fv1" :: n :: r => let k := pN n; some (.one ((r.take k).map pF), r.drop k)
+  | "fv2" :: n :: r =>
+      let k := pN n
+      let xs := (r.take k).map pF
+      match r.drop k with
+      | m :: r' => let j := pN m; some (.two xs ((r'.take j).map pF), r'.drop j)
+      | [] => none
+  | _ => none
+
+/-- donor parameter: `dnone` or a profile -/
+def takeDonor : List String → Option (Option (Profile Float) × List String)
+  | "dnone" :: r => some (none, r)
+  | ts => match takeProfile ts with
+    | some (p, r) => some (some p, r)
+    | none => none
+
+def shapeStr (sh : List Nat) : String := toString sh.length ++ " " ++ " ".intercalate (sh.map toString)
+
+/-- (n_e,T_e)-dependent rate family of the mock provider: S_i = s_i(1+p t), A_i = a_i(1+q n), C_i = c_i(1+p t+q n) -/
+def famS (s : Nat → Float) (p : Float) : Float → Float → Nat → Float := fun _ t i => s i * (1.0 + p * t)
+def famA (a : Nat → Float) (q : Float) : Float → Float → Nat → Float := fun n _ i => a i * (1.0 + q * n)
+def famC (c : Nat → Float) (p q : Float) : Float → Float → Nat → Float := fun n t i => c i * (1.0 + p * t + q * n)
+
+def step (ts : List String) : String :=
+  match ts with
+  | "mat" :: z :: tcx :: ne :: nD :: rest =>
+      let Z := pN z
+      let (S, A, C, _) := rates3 Z rest
+      let t := if pB tcx then some C else none
+      fFs ((matrixRows Z S A t (pF ne) (pF nD)).flatten ++ rhsList Z (pF ne))
+  | "closed" :: z :: tcx :: ne :: nD :: rest =>
+      let Z := pN z
+      let (S, A, C, _) := rates3 Z rest
+      let t := if pB tcx then some C else none
+      outZ Z (closedFrac Z S A t (pF ne) (pF nD))
+  | "frac" :: z :: donor :: ne :: nD :: rest =>
+      let Z := pN z
+      let (S, A, C, _) := rates3 Z rest
+      outZ Z (entryFractional genFlags bdSolve Z S A C (pB donor) (pF ne) (pF nD))
+  | "fd" :: z :: donor :: ne :: nD :: dens :: rest =>
+      let Z := pN z
+      let (S, A, C, _) := rates3 Z rest
+      outZ Z (entryFromDensity genFlags bdSolve Z S A C (pB donor) (pF ne) (pF nD) (pF dens))
+  | "fdx" :: k :: z :: donor :: ne :: nD :: dens :: rest =>
+      let Z := pN z
+      let (S, A, C, _) := rates3 Z rest
+      outZ Z (entryFromDensity ⟨pB k, pB k, pB k⟩ bdSolve Z S A C (pB donor) (pF ne) (pF nD) (pF dens))
+  | "mn" :: z :: donor :: ne :: nD :: nsp :: rest =>
+      let Z := pN z
+      let sp := takeSpecies (pN nsp) rest
+      let used := sp.foldl (fun a l => a + l.length + 1) 0
+      let (S, A, C, _) := rates3 Z (rest.drop used)
+      outZ Z (entryMatch genFlags bdSolve Z S A C (pB donor) (pF ne) (pF nD) sp)
+  | "mnx" :: k :: z :: donor :: ne :: nD :: nsp :: rest =>
+      let Z := pN z
+      let sp := takeSpecies (pN nsp) rest
+      let used := sp.foldl (fun a l => a + l.length + 1) 0
+      let (S, A, C, _) := rates3 Z (rest.drop used)
+      outZ Z (entryMatch ⟨pB k, pB k, pB k⟩ bdSolve Z S A C (pB donor) (pF ne) (pF nD) sp)
+  -- profile level: "pfrac Z donor p q S A C <fv> <ne> <te> <donor-density|dnone>"
+  -- and            "pfd   Z donor p q S A C <fv> <ne> <te> <donor-density|dnone> <element density>"
+  | kind :: z :: donor :: p :: q :: rest =>
+      if kind != "pfrac" && kind != "pfd" then "bad-op" else
+      let Z := pN z
+      let (s, a, c, r0) := rates3 Z rest
+      let S := famS s (pF p); let A := famA a (pF q); let C := famC c (pF p) (pF q)
+      match takeFree r0 with
+      | none => "bad-fv"
+      | some (fv, r1) =>
+        match takeProfile r1 with
+        | none => "bad-ne"
+        | some (pne, r2) =>
+          match takeProfile r2 with
+          | none => "bad-te"
+          | some (pte, r3) =>
+            match takeDonor r3 with
+            | none => "bad-donor"
+            | some (pd, r4) =>
+              let dn := assignDonor fv pne pd
+              if kind == "pfrac" then
+                match toArrays [toArray fv pne, toArray fv pte, dn] with
+                | some (sh, [ne, te, nD]) =>
+                    let res := profileFractional genFlags bdSolve Z S A C (pB donor) ne te nD
+                    shapeStr sh ++ " " ++ fFs ((ne.zip (te.zip res)).flatMap fun x =>
+                      [x.1, x.2.1] ++ (List.range (Z + 1)).map x.2.2)
+                | _ => "err"
+              else
+                match takeProfile r4 with
+                | none => "bad-dens"
+                | some (pdens, _) =>
+                  match toArrays [toArray fv pdens, toArray fv pne, toArray fv pte, dn] with
+                  | some (sh, [dens, ne, te, nD]) =>
+                      let res := profileFromDensity genFlags bdSolve Z S A C (pB donor) dens ne te nD
+                      shapeStr sh ++ " " ++ fFs ((ne.zip (te.zip res)).flatMap fun x =>
+                        [x.1, x.2.1] ++ (List.range (Z + 1)).map x.2.2)
+                  | _ => "err"
+  | _ => "bad-op"
+
 def main : IO UInt32 := do
-  loop (stateless fun ts => " ".intercalate ts) (← IO.getStdin) (← IO.getStdout) ()
+  loop (stateless step) (← IO.getStdin) (← IO.getStdout) ()
   return 0
